@@ -60,6 +60,8 @@ def atoms(reversed_too=True):
     for op in ("==", "!="):
         for v in EXTRA_VALUES:
             out.append(f'extra {op} "{v}"')
+    # PEP 508 literals in single quotes that hold a double quote (there are no escapes: such a literal can only be written that way)
+    out += ["os_name == 'a\"b'", "os_name != 'a\"b'", "'a\"b' in sys_platform", "sys_platform not in 'x\"linux'", "'\"' == platform_machine"]
     return out
 
 
